@@ -427,6 +427,20 @@ func init() {
 			})
 			r.Check(okCmp, "trail/compare-all", v.loop.Pos(), "each successor is compared by types.Identical with every element of the trail; a match adds a cycle error")
 			r.Check(okPush, "trail/push-extended", v.loop.Pos(), "a non-cyclic successor is pushed with a fresh copy of the trail extended by exactly that successor")
+			// that is the ONLY way onto the stack: any other push inside the search loop would follow an edge
+			// without comparing its target with the trail (a cycle closed by that edge is then never reported)
+			pushes := 0
+			fi.inspect(v.loop.Body, func(nd ast.Node) bool {
+				as, ok := nd.(*ast.AssignStmt)
+				if !ok || len(as.Lhs) != 1 || len(as.Rhs) != 1 || fi.varOf(as.Lhs[0]) != v.stk {
+					return true
+				}
+				if ap := fi.isBuiltin(as.Rhs[0], "append"); ap != nil {
+					pushes++
+				}
+				return true
+			})
+			r.Check(pushes == 1, "trail/single-push-site", v.loop.Pos(), "the search loop pushes onto its stack at exactly one site, the checked one (%d push sites)", pushes)
 		})
 
 	register("C08.R1", "verifyArgsUsed has one loop per direct-item kind that processNewSet fills: every element is compared by == with the matching providerSetSrc field of every used source, and a miss appends an error",
